@@ -27,4 +27,5 @@ var Registry = map[string]func(tier string, args []string) int{
 	"C05": func(t string, a []string) int { return C05(t) },
 	"C20": func(t string, a []string) int { return C20(t) },
 	"C16": func(t string, a []string) int { return C16(t) },
+	"C01": C01,
 }
